@@ -48,14 +48,18 @@ ApplyPeer(p, r, remove) ==
   /\ peers' = IF remove THEN Without(p) ELSE [peers EXCEPT ![p].x = r.x]
   /\ out' = [res |-> r.res, evs |-> Tag(p, r.evs), sends |-> [NoSends EXCEPT ![peers[p].addr] = r.outs]]
 
-NetConnect(a) ==
-  /\ cnt.created < MaxCreated /\ PidOf(a) = -1
+\* parametrised versions (no exploration budgets) are shared with the trace specification NetTrace
+ConnectAt(a) ==
+  /\ PidOf(a) = -1
   /\ LET p == FreeFrom(nextPid)
          r == ConnectOp(Fresh, "T")
      IN /\ peers' = Put(p, [addr |-> a, tf |-> FALSE, x |-> r.x])
         /\ nextPid' = p + 1
         /\ out' = [res |-> "ok", evs |-> <<>>, sends |-> [NoSends EXCEPT ![a] = r.outs], pid |-> p]
         /\ act' = [a |-> "connect", addr |-> a]
+NetConnect(a) ==
+  /\ cnt.created < MaxCreated
+  /\ ConnectAt(a)
   /\ cnt' = [cnt EXCEPT !.created = @ + 1, !.calls = @ + 1]
 
 \* what may arrive from address a
@@ -78,24 +82,26 @@ Alphabet(a) ==
              \cup {[k |-> "ctrl", c |-> c, tok |-> good, rt |-> "-", ack |-> (x.seq + 700) % 1024, r |-> (IF c = "Close" THEN 3 ELSE -1)]
                      : c \in {"KeepAlive", "Close"}}
 
+\* `bounded`: the creation budget of the exploration applies
+FeedWith(a, d, bounded) ==
+  LET p == PidOf(a) IN
+  /\ act' = [a |-> "feed", addr |-> a, d |-> d]
+  /\ IF d.k \in {"garbage", "unreadable"} THEN peers' = peers /\ out' = Quiet /\ UNCHANGED nextPid
+     ELSE IF p # -1
+     THEN LET r == FeedOp(peers[p].x, d, "T") IN ApplyPeer(p, r, HasDisc(r.evs)) /\ UNCHANGED nextPid
+     ELSE IF d.k = "connless"
+     THEN /\ peers' = peers /\ UNCHANGED nextPid
+          /\ out' = [Quiet EXCEPT !.evs = <<[e |-> "connless", id |-> d.id, sz |-> d.sz, pid |-> -1, addr |-> a]>>]
+     ELSE IF d.k = "ctrl" /\ d.c = "Connect" /\ Accepting /\ (~bounded \/ cnt.created < MaxCreated)
+     THEN LET q == FreeFrom(nextPid) IN
+          /\ peers' = Put(q, [addr |-> a, tf |-> (d.tok # "no"), x |-> Fresh])
+          /\ nextPid' = q + 1
+          /\ out' = [Quiet EXCEPT !.evs = <<[e |-> "connect", pid |-> q]>>]
+     ELSE /\ ~(d.k = "ctrl" /\ d.c = "Connect" /\ Accepting)     \* creation budget exhausted: not explored
+          /\ peers' = peers /\ out' = Quiet /\ UNCHANGED nextPid
 FeedFrom(a) ==
   /\ cnt.feeds < MaxFeeds
-  /\ \E d \in Alphabet(a) :
-       LET p == PidOf(a) IN
-       /\ act' = [a |-> "feed", addr |-> a, d |-> d]
-       /\ IF d.k = "garbage" THEN peers' = peers /\ out' = Quiet /\ UNCHANGED nextPid
-          ELSE IF p # -1
-          THEN LET r == FeedOp(peers[p].x, d, "T") IN ApplyPeer(p, r, HasDisc(r.evs)) /\ UNCHANGED nextPid
-          ELSE IF d.k = "connless"
-          THEN /\ peers' = peers /\ UNCHANGED nextPid
-               /\ out' = [Quiet EXCEPT !.evs = <<[e |-> "connless", id |-> d.id, sz |-> d.sz, pid |-> -1, addr |-> a]>>]
-          ELSE IF d.k = "ctrl" /\ d.c = "Connect" /\ Accepting /\ cnt.created < MaxCreated
-          THEN LET q == FreeFrom(nextPid) IN
-               /\ peers' = Put(q, [addr |-> a, tf |-> (d.tok # "no"), x |-> Fresh])
-               /\ nextPid' = q + 1
-               /\ out' = [Quiet EXCEPT !.evs = <<[e |-> "connect", pid |-> q]>>]
-          ELSE /\ ~(d.k = "ctrl" /\ d.c = "Connect" /\ Accepting)     \* creation budget exhausted: not explored
-               /\ peers' = peers /\ out' = Quiet /\ UNCHANGED nextPid
+  /\ \E d \in Alphabet(a) : FeedWith(a, d, TRUE)
   /\ cnt' = [cnt EXCEPT !.feeds = @ + 1,
                         !.created = IF Cardinality(DOMAIN peers') > Cardinality(Pids) THEN @ + 1 ELSE @]
 
@@ -108,32 +114,35 @@ NetAccept(p) ==
 \* Net::reject: a close for a peer that was never accepted (no token is known yet)
 \* `fail`: the send callback reports an error for the close datagram (it is not sent); the peer is gone all the same
 Failed(r, fail) == IF fail THEN [r EXCEPT !.outs = <<>>, !.res = "callback"] ELSE r
-NetReject(p) ==
+RejectWith(p, rs, fail) ==
   /\ peers[p].x.st = "Unc"
-  /\ \E fail \in BOOLEAN :
-       /\ ApplyPeer(p, Failed(R(Dead(peers[p].x), <<CtrlT(peers[p].x, "Close", "no", "-", 3)>>, <<>>, "ok"), fail), TRUE)
-       /\ act' = [a |-> "reject", pid |-> p, r |-> 3, fail |-> fail]
-NetDisconnect(p) ==
+  /\ ApplyPeer(p, Failed(R(Dead(peers[p].x), <<CtrlT(peers[p].x, "Close", "no", "-", rs)>>, <<>>, "ok"), fail), TRUE)
+  /\ act' = [a |-> "reject", pid |-> p, r |-> rs, fail |-> fail]
+NetReject(p) == \E fail \in BOOLEAN : RejectWith(p, 3, fail)
+DisconnectWith(p, rs, fail) ==
   /\ peers[p].x.st \notin {"Unc", "Disc"}
-  /\ \E fail \in BOOLEAN :
-       /\ ApplyPeer(p, Failed(DisconnectOp(peers[p].x, 3), fail), TRUE)
-       /\ act' = [a |-> "disconnect", pid |-> p, r |-> 3, fail |-> fail]
+  /\ ApplyPeer(p, Failed(DisconnectOp(peers[p].x, rs), fail), TRUE)
+  /\ act' = [a |-> "disconnect", pid |-> p, r |-> rs, fail |-> fail]
+NetDisconnect(p) == \E fail \in BOOLEAN : DisconnectWith(p, 3, fail)
 NetIgnore(p) ==
   /\ peers' = Without(p) /\ out' = Quiet
   /\ act' = [a |-> "ignore", pid |-> p]
+SendTo(p, v, sz, id) ==
+  /\ peers[p].x.st = "Onl"
+  /\ ApplyPeer(p, SendOp(peers[p].x, [id |-> id, sz |-> sz, v |-> v]), FALSE)
+  /\ act' = [a |-> "send", pid |-> p, v |-> v, sz |-> sz, id |-> id]
 NetSend(p) ==
-  /\ peers[p].x.st = "Onl" /\ cnt.vit < 2
-  /\ \E v \in BOOLEAN, sz \in NSizes :
-       /\ ApplyPeer(p, SendOp(peers[p].x, [id |-> cnt.calls + 1, sz |-> sz, v |-> v]), FALSE)
-       /\ act' = [a |-> "send", pid |-> p, v |-> v, sz |-> sz, id |-> cnt.calls + 1]
+  /\ cnt.vit < 2
+  /\ \E v \in BOOLEAN, sz \in NSizes : SendTo(p, v, sz, cnt.calls + 1)
 NetFlush(p) ==
   /\ peers[p].x.st = "Onl"
   /\ ApplyPeer(p, FlushOp(peers[p].x), FALSE)
   /\ act' = [a |-> "flush", pid |-> p]
-NetConnless(a) ==
+ConnlessTo(a, id, sz) ==
   /\ peers' = peers
-  /\ out' = [Quiet EXCEPT !.sends = [NoSends EXCEPT ![a] = <<[k |-> "connless", id |-> 5, sz |-> 4, tok |-> "no", rt |-> "-"]>>]]
-  /\ act' = [a |-> "connless", addr |-> a, id |-> 5, sz |-> 4]
+  /\ out' = [Quiet EXCEPT !.sends = [NoSends EXCEPT ![a] = <<[k |-> "connless", id |-> id, sz |-> sz, tok |-> "no", rt |-> "-"]>>]]
+  /\ act' = [a |-> "connless", addr |-> a, id |-> id, sz |-> sz]
+NetConnless(a) == ConnlessTo(a, 5, 4)
 Call ==
   /\ cnt.calls < MaxCalls
   /\ \/ \E p \in Pids : NetAccept(p) \/ NetReject(p) \/ NetDisconnect(p) \/ NetIgnore(p) \/ NetSend(p) \/ NetFlush(p)
@@ -142,19 +151,24 @@ Call ==
   /\ UNCHANGED nextPid
 
 \* Net::tick: every peer's connection is ticked
-NetTick ==
-  /\ \E p \in Pids : TickDue(peers[p].x)
+TickAll ==
   /\ LET r == [p \in Pids |-> TickOp(peers[p].x)] IN
      /\ peers' = [p \in Pids |-> [peers[p] EXCEPT !.x = r[p].x]]
      /\ out' = [Quiet EXCEPT !.sends = [a \in Addrs |-> IF PidOf(a) = -1 THEN <<>> ELSE r[PidOf(a)].outs]]
   /\ act' = [a |-> "tick"]
-  /\ UNCHANGED <<nextPid, cnt>>
+  /\ UNCHANGED nextPid
+NetTick ==
+  /\ \E p \in Pids : TickDue(peers[p].x)
+  /\ TickAll
+  /\ UNCHANGED cnt
+AdvanceBy(d) ==
+  /\ peers' = [p \in Pids |-> [peers[p] EXCEPT !.x = AdvanceOp(@, d)]]
+  /\ out' = Quiet /\ act' = [a |-> "advance", d |-> d]
+  /\ UNCHANGED nextPid
 NetAdvance ==
   /\ cnt.ticks < MaxTicks
-  /\ peers' = [p \in Pids |-> [peers[p] EXCEPT !.x = AdvanceOp(@, 500)]]
-  /\ out' = Quiet /\ act' = [a |-> "advance", d |-> 500]
+  /\ AdvanceBy(500)
   /\ cnt' = [cnt EXCEPT !.ticks = @ + 1]
-  /\ UNCHANGED nextPid
 \* verification hook: the next peer id is set to an id that is in use
 Rewind ==
   /\ cnt.rewinds < MaxRewind /\ Pids # {}
